@@ -412,7 +412,10 @@ func (w *World) assign(entity Entity, relation ID, hasRelation bool, target Enti
 func (w *World) exchange(entity Entity, add []ID, rem []ID, relation ID, hasRelation bool, target Entity) {
 	if w.listener != nil {
 		arch, oldMask, oldTarget, oldRel := w.exchangeNoNotify(entity, add, rem, relation, hasRelation, target)
-		w.notifyExchange(arch, oldMask, entity, add, rem, oldTarget, oldRel)
+		if arch != nil {
+			// arch is nil for an exchange without any components: nothing changed, no event.
+			w.notifyExchange(arch, oldMask, entity, add, rem, oldTarget, oldRel)
+		}
 		return
 	}
 	w.exchangeNoNotify(entity, add, rem, relation, hasRelation, target)
